@@ -104,6 +104,8 @@ def check_C20(F, tier, t0):
     E = make_engine(F)
     fns = spec_bdd.BDD_SCOPE['C20']
     run_S(R, E, fns)
+    guarded(R, 'S helper predicates', run_S, R, E, spec_bdd.HELPER_FNS, spec_bdd.B, False)
+    guarded(R, 'X4 retain', engine_x.rule_X4, F, R, ('retain',))
     R.count('mk_choice-call-sites', static_mk_choice_sites(F.lib(), fns))
     R.floor('functions', 1); R.floor('worlds', 20); R.floor('mk_choice-call-sites', 3)
     return finish(R, 'proof', tier, t0,
@@ -122,6 +124,7 @@ def make_engine(F):            # (re-definition: full set of specs)
     spec_parser.install(E)
     spec_bdd.install_fp(E)
     spec_set.install(E)
+    spec_bdd.install_helpers(E)
     return E
 
 def guarded(R, what, fn, *args):
@@ -314,13 +317,18 @@ def check_C10(F, tier, t0):
     guarded(R, 'X1', engine_x.rule_X1_printers, F, R)
     guarded(R, 'X2', engine_x.rule_X2, F, R, ('table',))
     guarded(R, 'X3', engine_x.rule_X3, F, R)
-    guarded(R, 'X4', engine_x.rule_X4, F, R, ('parse', 'model', 'retain'))
+    guarded(R, 'X4', engine_x.rule_X4, F, R, ('parse', 'model', 'retain', 'vars'))
+    # the header is free_vars: it is right only if the free-variable analysis is
+    E = make_engine(F)
+    guarded(R, 'S var_is_free', run_S, R, E, [FRF], spec_bdd.B, False)
+    guarded(R, 'S helper predicates', run_S, R, E, spec_bdd.HELPER_FNS, spec_bdd.B, False)
     guarded(R, 'T filter spellings', engine_t.rule_tte, F, R)
     R.floor('X1:recursive-descent-sites', 4); R.floor('X2:row-filter-cases', 6); R.floor('X3:index-sites', 8); R.floor('T:filter-spelling-rows', 3)
     return finish(R, 'other', tier, t0,
         'Clauses: branch polarity of both printers (true-branch records True); the row predicate over filter x leaf (printed iff filter=Any or filter=leaf) and -v printing '
         'exactly at the True leaf; index domains of every column access (to_free_index yields a position in free_vars, which is sorted by id; every index stays below the '
-        'length of the sequence it indexes); one parser call fed by all three input channels; model/retain applied before every printer; filter spellings disjoint and on '
+        'length of the sequence it indexes); one parser call fed by all three input channels; model/retain applied before every printer; the header is free_vars, filled from the '
+        'textbook free-variable analysis (engine S on var_is_free); filter spellings disjoint and on '
         'the right variant. With "rows are the root-to-leaf paths of an ordered diagram" (C02) these give disjointness and coverage. Not decided: text layout, clap/argfile/wild.',
         TRUSTED, [], './check C10')
 
@@ -440,6 +448,7 @@ def check_C14(F, tier, t0):
     R = Report('C14')
     guarded(R, 'X1 dot', engine_x.rule_X1_dot, F, R)
     guarded(R, 'X2', engine_x.rule_X2, F, R, ('dot',))
+    guarded(R, 'S helper predicates', run_S, R, make_engine(F), spec_bdd.HELPER_FNS, spec_bdd.B, False)
     guarded(R, 'X6', engine_x.rule_X6, F, R)
     R.floor('X1:edge-tuples', 2); R.floor('X2:dot-leaf-cases', 6); R.floor('X2:dot-edge-cases', 18); R.floor('X6:variants', 12); R.floor('X6:recursive-fields', 11)
     return finish(R, 'other', tier, t0,
